@@ -75,6 +75,8 @@ def names(case, scheme="plain"):
         return ["S", "#TERM#a", "#StartCFG#"][:v], TER_NAMES[:t]
     if scheme == "mixedval":  # variable values of different types with one spelling
         return [0, "0", 1][:v], TER_NAMES[:t]
+    if scheme == "mixedter":  # terminal values of different types with one spelling
+        return VAR_NAMES[:v], [0, "0", 1][:t]
     if scheme == "lower":
         return ["s", "x", "y"][:v], ["A", "Bc", "d"][:t]
     raise ValueError(scheme)
